@@ -40,6 +40,10 @@ def main():
     for i in range(n):
         plan = dict(ad.make_plan(12345, i, 'quick'))
         plan['iso'] = {}
+        for cl in plan['clients']:
+            for st in cl['steps']:
+                if not st['fn'].startswith('caller.'):
+                    reach.setdefault(st['fn'], set())
         for c in range(len(plan['clients'])):
             try:
                 c20.run_ref_client(plan, c)
